@@ -12,7 +12,7 @@ RULE = (
     "A case = a population of 2-7 instances drawn from {plain class, value-equal + hashable, value-equal without "
     "__hash__, expression-builder equality (== returns a truthy node), equality that raises on foreign operands, list subclass (receiver named 'me'), dict subclass (receiver named 'this'), subclass inheriting the "
     "method, subclass overriding it, class with a functools.wraps-decorated method, class with a property} with small "
-    "keys so that equal-but-distinct receivers occur, 1-2 simultaneously active selectors from {Cls.meth > v, "
+    "keys so that equal-but-distinct receivers occur, 1-3 selectors (often on receivers sharing one method; some activated part-way through the history, some deactivated - most recent first - while calls go on) from {Cls.meth > v, "
     "obj.meth > v, box.holder.obj.meth > v (dotted path), decorated method through class or object, property through "
     "the class}, and a random sequence of 4-14 calls over the population plus calls of a module-level function that "
     "shares the method's name.  Oracle per selector: class form -> one event per call that executes that function "
@@ -171,9 +171,15 @@ def gen_case(rnd):
         j = rnd.randrange(len(pop))
         pop.append(list(pop[j]))
     sels = []
-    for _ in range(rnd.choice([1, 1, 2])):
+    for si in range(rnd.choice([1, 1, 2, 2, 3])):
         r = rnd.random()
         j = rnd.randrange(len(pop))
+        if si and rnd.random() < 0.5:
+            # another receiver of the same class as the first selector (probes sharing one method)
+            k0 = sels[0][1] if sels[0][0] == "class" else pop[sels[0][1]][0]
+            same = [jj for jj, (kk, _) in enumerate(pop) if kk == k0]
+            if same:
+                j = rnd.choice(same)
         kind = pop[j][0]
         if r < 0.25:
             sels.append(["class", kind])
@@ -187,7 +193,14 @@ def gen_case(rnd):
             calls.append(["namesake", 100 + c])
         else:
             calls.append(["inst", rnd.randrange(len(pop)), 100 + c])
-    return {"pop": pop, "sels": sels, "calls": calls}
+    # history: some probes are activated part-way, and probes are deactivated (most recent first)
+    # while calls go on
+    late = [si for si in range(1, len(sels)) if rnd.random() < 0.3]
+    for si in late:
+        calls.insert(rnd.randrange(len(calls) + 1), ["on", si])
+    for _ in range(rnd.choice([0, 0, 1, 1, 2])):
+        calls.insert(rnd.randrange(len(calls) // 2, len(calls) + 1), ["off"])
+    return {"pop": pop, "sels": sels, "calls": calls, "late": late}
 
 
 def run_case(ns, case, res):
@@ -206,8 +219,8 @@ def run_case(ns, case, res):
     base = HandlerCollection.current.get()
     probes = []
     info = {"equal_distinct": False, "unhashable_probed": False}
-    try:
-        for sel in case["sels"]:
+    def activate(sel):
+        if True:
             if sel[0] == "class":
                 kind = sel[1]
                 text = f"{kind}.pval > v" if kind == "Prop" else f"{kind}.meth > v"
@@ -238,8 +251,23 @@ def run_case(ns, case, res):
             except Exception as ex:
                 problems.append({"selector": text, "problem": f"probing/activation raised {type(ex).__name__}: {ex}", "population": case["pop"]})
                 raise
-            probes.append({"text": text, "want": want, "out": out, "obj": prb, "expected": []})
+            probes.append({"text": text, "want": want, "out": out, "obj": prb, "expected": [], "active": True})
+
+    try:
+        late = set(case.get("late") or ())
+        for si, sel in enumerate(case["sels"]):
+            if si not in late:
+                activate(sel)
         for call in case["calls"]:
+            if call[0] == "on":
+                activate(case["sels"][call[1]])
+                continue
+            if call[0] == "off":
+                act = [p for p in probes if p["active"]]
+                if act:
+                    act[-1]["obj"].__exit__(None, None, None)
+                    act[-1]["active"] = False
+                continue
             if call[0] == "namesake":
                 r = ns["meth"](call[1])
                 if r != -call[1]:
@@ -254,6 +282,8 @@ def run_case(ns, case, res):
                 problems.append({"problem": f"call on instance {j} ({kind}) returned {r}, expected {ev}"})
             for p in probes:
                 w = p["want"]
+                if not p["active"]:
+                    continue
                 if w["mode"] == "class":
                     if func_of(ns, kind) is w["fn"]:
                         p["expected"].append((ev, None))
@@ -282,6 +312,8 @@ def run_case(ns, case, res):
             problems.append({"problem": "exception: " + common.fmt_exc(ex)})
     finally:
         for p in reversed(probes):
+            if not p["active"]:
+                continue
             try:
                 p["obj"].__exit__(None, None, None)
             except Exception as ex:
